@@ -160,7 +160,7 @@ var Int = NewScalar(ScalarConfig{
 		switch valueAST := valueAST.(type) {
 		case *ast.IntValue:
 			if intValue, err := strconv.Atoi(valueAST.Value); err == nil {
-				return intValue
+				return coerceInt(intValue)
 			}
 		}
 		return nil
